@@ -223,8 +223,27 @@ def gate_cases():
                     yield ("gate:%s:%s" % (mode, name), wrap((L, R), (stmt,)), (), "parse", mode)
 
 
+RELOAD_VERSIONS = {
+    # version name -> {gate: number of qubit parameters}
+    "g1": {"G": 1},
+    "g2": {"G": 2},
+    "gk": {"G": 1, "K": 1},
+    "none": {},
+}
+
+
+def reload_cases():
+    """a relative pulse module whose file is rewritten between two parses in one process: the second parse must
+    be judged against the gate table that is in the file THEN"""
+    R = ("register", "q", 2)
+    stmts = {"G1": A.gate("G", A.item("q", 0)), "G2": A.gate("G", A.item("q", 0), A.item("q", 1)), "K1": A.gate("K", A.item("q", 0))}
+    for v1, v2 in itertools.permutations(RELOAD_VERSIONS, 2):
+        for sname, st in stmts.items():
+            yield ("reload:%s->%s:%s" % (v1, v2, sname), wrap((R,), (st,)), (), "parse", "reload:%s:%s" % (v1, v2))
+
+
 def all_cases_list():
-    return itertools.chain(ref_cases(), kind_cases(), name_cases(), gate_cases())
+    return itertools.chain(ref_cases(), kind_cases(), name_cases(), gate_cases(), reload_cases())
 
 
 # ---------------------------------------------------------------- the pipeline
@@ -301,6 +320,8 @@ class C14(Check):
 
     def show(self, case):
         label, p, ov, deadline, mode = case
+        if mode.startswith("reload:"):
+            return {"family": label, "text": render.text(p), "pulse_file_versions": mode}
         return {"family": label, "text": program_text(p, mode), "override": dict(ov), "natives": mode, "deadline": deadline}
 
     def shrink(self, case):
@@ -310,8 +331,70 @@ class C14(Check):
         for cand in A.shrink_program(p):
             yield (label, cand, ov, deadline, mode)
 
+    def run_reload(self, case, ctx):
+        import shutil
+        import tempfile
+
+        label, p, _ov, _deadline, mode = case
+        _, v1, v2 = mode.split(":")
+        text = render.text(("prog", (("usepulses", ".rlmod"),) + p[1], p[2]))
+        d = tempfile.mkdtemp(prefix="c14_reload_")
+        try:
+            os.makedirs(os.path.join(d, "rlmod"))
+            open(os.path.join(d, "rlmod", "__init__.py"), "w").close()
+            for step, ver in enumerate((v1, v2)):
+                table = {"prepare_all": (), "measure_all": (), "X": ("q",)}
+                table.update({g: ("q",) * k for g, k in RELOAD_VERSIONS[ver].items()})
+                src = ["# version %s %s" % (ver, "#" * (7 * step + len(ver))),
+                       "import numpy as np",
+                       "from jaqalpaq.core import GateDefinition, Parameter, ParamType",
+                       "from jaqalpaq.core.gatedef import BusyGateDefinition",
+                       "def _u(k):",
+                       "    return lambda: np.eye(2 ** k, dtype=complex)",
+                       "_D = [BusyGateDefinition('prepare_all'), BusyGateDefinition('measure_all'),",
+                       "      GateDefinition('X', [Parameter('q', ParamType.QUBIT)], ideal_unitary=_u(1))]"]
+                for g, k in RELOAD_VERSIONS[ver].items():
+                    src.append("_D.append(GateDefinition(%r, [Parameter('p%%d' %% i, ParamType.QUBIT) for i in range(%d)], ideal_unitary=_u(%d)))" % (g, k, k))
+                src.append("ALL_GATES = {d.name: d for d in _D}")
+                with open(os.path.join(d, "rlmod", "jaqal_gates.py"), "w") as f:
+                    f.write("\n".join(src) + "\n")
+                model = Model(p, table)
+                try:
+                    model.den()
+                    verdict = "valid"
+                except Invalid as e:
+                    verdict = e.reason
+                ctx.trace()
+                ctx.transition()
+                try:
+                    c = impl.parse(text, autoload_pulses=True, import_path=d)
+                    got = "accepted"
+                except impl.JaqalError:
+                    got = "rejected"
+                except Exception as ex:  # noqa: BLE001
+                    got = "crash:" + type(ex).__name__
+                ctx.state(("reload", ver, verdict, got))
+                if verdict != "valid" and got == "accepted":
+                    ctx.outcome("ACCEPTED-invalid-after-reload")
+                    ctx.fail("accepted", "pulse file version %s (parse %d in this process): the model finds %s, but the program was accepted" % (ver, step + 1, verdict))
+                    return
+                if verdict != "valid" and got.startswith("crash"):
+                    ctx.fail("not-a-JaqalError", "pulse file version %s: %s" % (ver, got))
+                    return
+                if verdict == "valid" and got == "accepted":
+                    ng = c.native_gates
+                    for name, kinds in table.items():
+                        if name not in ng or len(ng[name].parameters) != len(kinds):
+                            ctx.fail("precedence", "after the pulse file was rewritten to version %s, gate %s in force does not match the file" % (ver, name))
+                            return
+            ctx.outcome("reload")
+        finally:
+            shutil.rmtree(d, ignore_errors=True)
+
     def run_case(self, case, ctx):
         label, p, ov, deadline, mode = case
+        if mode.startswith("reload:"):
+            return self.run_reload(case, ctx)
         ovd = dict(ov)
         text = program_text(p, mode)
         table = MODES[mode][2]
